@@ -507,6 +507,10 @@ def _ref_clip(x, w, nsig, niter):
             cur = x[idx].astype(LD)
             dev = np.abs(cur - m)
             thr = LD(nsig) * s
+            if np.any((dev > 0) & (dev < LD(1e-150))):
+                # squared deviations underflow in float64 (they do not in the longdouble reference): which
+                # points are "within nsig deviations" is then an artefact of the arithmetic, not decidable
+                return idx, False, removing
             margin = LD(1e-9) * s + LD(1e-11) * np.abs(cur).max()
             if np.any(np.abs(dev - thr) <= margin):
                 return idx, False, removing
